@@ -12,12 +12,21 @@ use crate::time::Date;
 pub uninterp spec fn spec_today() -> int;
 #[verifier::external_body]
 pub fn today_local() -> (r: Date) ensures r@ == spec_today() { unimplemented!() }
+/// util::date::parse_date (time crate parsing): the date a text denotes under a format, a function of both
+pub uninterp spec fn spec_parse_date(s: Seq<char>, fmt: &Option<crate::util::date_fmt::DynDateFormat>) -> Option<int>;
+#[verifier::external_body]
+pub struct DateParseError { x: u8 }
+#[verifier::external_body]
+pub fn parse_date(date_str: &str, fmt: &Option<crate::util::date_fmt::DynDateFormat>) -> (r: Result<Date, DateParseError>)
+    ensures r is Ok <==> spec_parse_date(date_str@, fmt) is Some, r is Ok ==> r->Ok_0@ == spec_parse_date(date_str@, fmt)->Some_0
+{ unimplemented!() }
 }
 pub mod rw_reader {
 use vstd::prelude::*;
 /// stand-in for util::rw::DescribedReader (a named byte source); reading is not modelled
 #[verifier::external_body]
 pub struct DescribedReader { x: u8 }
+impl DescribedReader { #[verifier::external_body] pub fn desc(&self) -> &str { unimplemented!() } }
 }
 pub mod date_fmt {
 use vstd::prelude::*;
